@@ -111,6 +111,74 @@ def fresh_result_rule(ctx, R):
     R.ok('ia32_sem: results are built per call', sample='%d return statements of ia32_sem return a value built in the call' % n)
 
 
+MUT = {'append', 'extend', 'insert', 'reverse', 'sort', 'pop', 'remove', 'update', 'setdefault', 'clear', 'add', 'discard', 'popitem'}
+
+
+def shared_table_rule(R7, mods):
+    """No function mutates in place a module-level object, or a local bound to one (or to an element of one: `regs = pusha_regs[s]; regs.reverse()`)
+    without a copy.  Shared by C12.D7 (all API modules) and C04.D16 (the lifter: lifting is a function of the instruction)."""
+    def root_name(n):
+        while isinstance(n, (ast.Attribute, ast.Subscript)):
+            n = n.value
+        return n.id if isinstance(n, ast.Name) else None
+
+    def is_alias_expr(v):
+        # a name, attribute or element of a module-level object; a slice x[a:b] is a copy
+        if isinstance(v, ast.Subscript) and isinstance(v.slice, ast.Slice):
+            return False
+        return isinstance(v, (ast.Name, ast.Attribute, ast.Subscript))
+    for m in mods:
+        glob = set()
+        for st in m.tree.body:
+            if isinstance(st, ast.Assign):
+                glob.update(t.id for t in st.targets if isinstance(t, ast.Name))
+            elif isinstance(st, ast.ClassDef):
+                glob.add(st.name)
+            elif isinstance(st, (ast.Import, ast.ImportFrom)):
+                glob.update((a.asname or a.name).split('.')[0] for a in st.names)
+        for cname, fn in all_functions(m):
+            params = set(a.arg for a in fn.args.args) | set(a.arg for a in fn.args.kwonlyargs)
+            binds = {}
+            for n in ast.walk(fn):
+                if isinstance(n, ast.Assign) and len(n.targets) == 1 and isinstance(n.targets[0], ast.Name):
+                    binds.setdefault(n.targets[0].id, []).append(n)
+                elif isinstance(n, (ast.For, ast.comprehension)) and isinstance(n.target, ast.Name):
+                    binds.setdefault(n.target.id, [])
+            localnames = set(binds) | params
+            inst = '%s::%s%s' % (m.name, (cname + '.') if cname else '', fn.name)
+            bad = False
+            for n in ast.walk(fn):
+                tgt = what = None
+                if isinstance(n, ast.Call) and isinstance(n.func, ast.Attribute) and n.func.attr in MUT:
+                    tgt, what = n.func.value, '.%s()' % n.func.attr
+                elif isinstance(n, (ast.Assign, ast.AugAssign)):
+                    for tg in (n.targets if isinstance(n, ast.Assign) else [n.target]):
+                        if isinstance(tg, ast.Subscript):
+                            tgt, what = tg.value, 'item assignment'
+                elif isinstance(n, ast.Delete):
+                    for tg in n.targets:
+                        if isinstance(tg, ast.Subscript):
+                            tgt, what = tg.value, 'item deletion'
+                if tgt is None:
+                    continue
+                r = root_name(tgt)
+                if r is None:
+                    continue
+                if r in localnames and isinstance(tgt, ast.Name) and r not in params:
+                    shared = [b for b in binds.get(r, []) if b.lineno <= n.lineno and is_alias_expr(b.value) and root_name(b.value) in glob
+                              and root_name(b.value) not in localnames and _reaches(b, n, binds.get(r, []), fn)]
+                    if shared:
+                        bad = True
+                        R7.violation(inst, 'shared-table:%s:%s:%s' % (fn.name, u(shared[-1].value), what), '%s binds the local %s to the shared table %s and mutates it in place (%s): every '
+                                     'later call sees the changed table' % (fn.name, r, u(shared[-1].value), what), where(m, n), witness='lifting popad once makes mov eax, ebx lift to edi = esp'
+                                     if fn.name == 'popad' else None)
+                elif r in glob and r not in localnames:
+                    bad = True
+                    R7.violation(inst, 'shared-table:%s:%s:%s' % (fn.name, u(tgt), what), '%s mutates the module-level object %s in place (%s)' % (fn.name, u(tgt), what), where(m, n))
+            if not bad:
+                R7.ok(inst, nontrivial=(len(R7.nontrivial) < 400))
+
+
 READONLY_METHODS = ('__str__', 'breakflow', 'splitflow', 'dstflow', 'getdstflow', 'getnextflow', 'is_subcall', 'is_mem')
 
 
@@ -394,62 +462,7 @@ def run(ctx, report):
 
     # ---------------------------------------------------------------- D7 shared tables are not mutated in place by a call
     R7 = report.rule('C12.D7', 'no function mutates in place a module-level table or a local that aliases one (a later call would see the changed table)', floor=300)
-    MUT = {'append', 'extend', 'insert', 'reverse', 'sort', 'pop', 'remove', 'update', 'setdefault', 'clear', 'add', 'discard', 'popitem'}
-
-    def root_name(n):
-        while isinstance(n, (ast.Attribute, ast.Subscript)):
-            n = n.value
-        return n.id if isinstance(n, ast.Name) else None
-    for m in mods:
-        glob = set()
-        for st in m.tree.body:
-            if isinstance(st, ast.Assign):
-                glob.update(t.id for t in st.targets if isinstance(t, ast.Name))
-            elif isinstance(st, ast.ClassDef):
-                glob.add(st.name)
-            elif isinstance(st, (ast.Import, ast.ImportFrom)):
-                glob.update((a.asname or a.name).split('.')[0] for a in st.names)
-        for cname, fn in all_functions(m):
-            params = set(a.arg for a in fn.args.args) | set(a.arg for a in fn.args.kwonlyargs)
-            binds = {}
-            for n in ast.walk(fn):
-                if isinstance(n, ast.Assign) and len(n.targets) == 1 and isinstance(n.targets[0], ast.Name):
-                    binds.setdefault(n.targets[0].id, []).append(n)
-                elif isinstance(n, (ast.For, ast.comprehension)) and isinstance(n.target, ast.Name):
-                    binds.setdefault(n.target.id, [])
-            localnames = set(binds) | params
-            inst = '%s::%s%s' % (m.name, (cname + '.') if cname else '', fn.name)
-            bad = False
-            for n in ast.walk(fn):
-                tgt = what = None
-                if isinstance(n, ast.Call) and isinstance(n.func, ast.Attribute) and n.func.attr in MUT:
-                    tgt, what = n.func.value, '.%s()' % n.func.attr
-                elif isinstance(n, (ast.Assign, ast.AugAssign)):
-                    for tg in (n.targets if isinstance(n, ast.Assign) else [n.target]):
-                        if isinstance(tg, ast.Subscript):
-                            tgt, what = tg.value, 'item assignment'
-                elif isinstance(n, ast.Delete):
-                    for tg in n.targets:
-                        if isinstance(tg, ast.Subscript):
-                            tgt, what = tg.value, 'item deletion'
-                if tgt is None:
-                    continue
-                r = root_name(tgt)
-                if r is None:
-                    continue
-                if r in localnames and isinstance(tgt, ast.Name) and r not in params:
-                    shared = [b for b in binds.get(r, []) if b.lineno <= n.lineno and isinstance(b.value, (ast.Name, ast.Attribute)) and root_name(b.value) in glob
-                              and root_name(b.value) not in localnames and _reaches(b, n, binds.get(r, []), fn)]
-                    if shared:
-                        bad = True
-                        R7.violation(inst, 'shared-table:%s:%s:%s' % (fn.name, u(shared[-1].value), what), '%s binds the local %s to the shared table %s and mutates it in place (%s): every '
-                                     'later call sees the changed table' % (fn.name, r, u(shared[-1].value), what), where(m, n), witness='lifting popad once makes mov eax, ebx lift to edi = esp'
-                                     if fn.name == 'popad' else None)
-                elif r in glob and r not in localnames:
-                    bad = True
-                    R7.violation(inst, 'shared-table:%s:%s:%s' % (fn.name, u(tgt), what), '%s mutates the module-level object %s in place (%s)' % (fn.name, u(tgt), what), where(m, n))
-            if not bad:
-                R7.ok(inst, nontrivial=(len(R7.nontrivial) < 400))
+    shared_table_rule(R7, mods)
     # D7, second part: the tables of a module-level instance (x86mndb = x86allmncs()) are filled by __init__ and what it calls; any other method is
     # reached from the API and must not change them (a lookup that inserts leaves state behind for the next call)
     n_shared = 0
